@@ -279,10 +279,11 @@ class ResourceMap:
         supermap).
         """
         # Before scrapping everything, update their parent information
-        for handle in self.handles.values():
-            if handle.parent == self:
-                handle.parent = None
-                handle.key = None
+        for layer in self.handles.maps:
+            for handle in layer.values():
+                if handle.parent == self:
+                    handle.parent = None
+                    handle.key = None
 
         for map_ in self.maps.values():
             if map_.parent == self:
@@ -290,7 +291,7 @@ class ResourceMap:
                 map_.key = None
 
         self.maps.clear()
-        self.handles.clear()
+        self.handles = ChainMap()       # Scrap all layers
 
     def get_static_map(self) -> StaticResourceMap:
         """Generate a static map for convenience resource access.
